@@ -403,6 +403,7 @@ func (in *Interp) runPath(fn *ssa.Function, prefix []int) (kind, msg string) {
 	in.expectPanic = false
 	in.schedUsed = 0
 	in.noMerge = false
+	in.preemptLocks = false
 	in.schedules = 1
 	in.specDepth = 0
 	in.pathNotes = nil
